@@ -200,10 +200,21 @@ func SendNode(nc *nats.Conn, node data.NodeEdge, origin string) error {
 		return fmt.Errorf("Error sending node: %v", err)
 	}
 
-	if len(node.EdgePoints) <= 0 {
-		// edge should always have a tombstone point, set to false for root node
-		node.EdgePoints = []data.Point{{Time: time.Now(),
-			Type: data.PointTypeTombstone, Origin: origin}}
+	hasTombstone := false
+	for _, p := range node.EdgePoints {
+		if p.Type == data.PointTypeTombstone {
+			hasTombstone = true
+			break
+		}
+	}
+
+	if !hasTombstone {
+		// edge should always have a tombstone point, set to false for root node.
+		// Exports leave it out, so it must also be added when other edge points
+		// are present, otherwise sending (importing) a node that was deleted
+		// before leaves it deleted.
+		node.EdgePoints = append(node.EdgePoints, data.Point{Time: time.Now(),
+			Type: data.PointTypeTombstone, Origin: origin})
 	}
 
 	node.EdgePoints = append(node.EdgePoints, data.Point{
